@@ -30,7 +30,7 @@ Print Assumptions pairwise_never_jwt.
    request, the client of the session a callback or a notification resumes. *)
 Theorem pairwise_never_jwt_all_histories : forall w dyn ops,
   trace_pw_ok w (init_state dyn) 0 ops = true.
-Proof. exact (fun w dyn ops => trace_pw_ok_all w ops (init_state dyn) 0%nat). Qed.
+Proof. exact trace_pw_ok_init. Qed.
 Print Assumptions pairwise_never_jwt_all_histories.
 
 (* the flow model's switch is the artifact model's shouldSwitchToOpaque *)
